@@ -87,7 +87,12 @@ class ExprMixin:
             if isinstance(v, ast.FormattedValue):
                 x = self.eval(v.value, frame)
                 amb = amb or (isinstance(x, Opaque) and x.ambient)
-                parts.append("{%s}" % (x.desc if isinstance(x, Opaque) else key_str(val_key(x))))
+                if isinstance(x, StrV) and x.s is not None:
+                    parts.append(x.s)
+                elif isinstance(x, Num) and x.r.as_int() is not None:
+                    parts.append(str(x.r.as_int()))
+                else:
+                    parts.append("{%s}" % (x.desc if isinstance(x, Opaque) else key_str(val_key(x))))
             elif isinstance(v, ast.Constant):
                 parts.append(str(v.value))
         return Opaque("f'" + "".join(parts) + "'", ambient=amb)
@@ -109,6 +114,28 @@ class ExprMixin:
                 raise Unmodelled("dict key is not a constant string at %s" % frame.loc(node))
             items[kv.s] = self.eval(v, frame)
         return DictV(items)
+
+    def ex_DictComp(self, node, frame):
+        if len(node.generators) != 1 or node.generators[0].is_async:
+            raise Unmodelled("nested dict comprehension at %s" % frame.loc(node))
+        g = node.generators[0]
+        it = self.force(self.eval(g.iter, frame), frame, node)
+        items = self.as_items(it, frame, node)
+        if items is None:
+            raise Unmodelled("dict comprehension over a non-literal sequence at %s" % frame.loc(node))
+        out = {}
+        f2 = Frame(frame.func, frame.module, {}, frame.cls, parent=frame)
+        for x in items:
+            self.assign(g.target, x, f2)
+            if not all(self.truth(self.eval(c, f2), f2, c) for c in g.ifs):
+                continue
+            k = self.resolve_maybe(self.eval(node.key, f2))
+            if isinstance(k, StrV) and k.s is None:
+                k = self.concretize_str(k, f2, node) or k
+            if not (isinstance(k, StrV) and k.s is not None):
+                raise Unmodelled("dict comprehension with a non-constant key at %s" % frame.loc(node))
+            out[k.s] = self.eval(node.value, f2)
+        return DictV(out)
 
     def ex_Lambda(self, node, frame):
         return FuncV("lambda", node=node, frame=frame)
@@ -415,6 +442,9 @@ class ExprMixin:
             return FuncV("ext", dotted=dotted)
         if isinstance(base, FuncV) and base.kind == "ext":
             return FuncV("ext", dotted=base.dotted + "." + attr)
+        r = self.io_getattr(base, attr, frame, node)
+        if r is not None:
+            return r
         if isinstance(base, (ListV, TupV)):
             if attr in ("append", "pop", "extend", "insert", "sort", "reverse", "remove", "clear", "copy", "index", "count"):
                 return FuncV("ext", dotted="list." + attr, self_val=base)
@@ -500,6 +530,9 @@ class ExprMixin:
         idx = self.force(idx, frame, node)
         if isinstance(base, Num):
             base = self.num_as_list(base)
+        r = self.io_index(base, idx, frame, node)
+        if r is not None:
+            return r
         if isinstance(base, DictV):
             if isinstance(idx, StrV) and idx.s is not None:
                 if idx.s in base.items:
@@ -598,12 +631,17 @@ class ExprMixin:
                 return r.r
         if isinstance(v, Opaque):
             return Rat.sym("len(%s)" % v.desc, ("nonneg", "int"))
+        r = self.io_length(v, frame, node)
+        if r is not None:
+            return r
         raise Unmodelled("len of %r at %s" % (v, frame.loc(node)))
 
     def str_domain(self, path):
         if path is None:
             return None
         d = self.cfg.str_domains.get(path)
+        if d is None and path.endswith("]"):
+            d = self.cfg.str_domains.get(path[:path.rfind("[")])
         if d is None:
             for k, v in self.cfg.str_domains.items():
                 if k.startswith("*") and path.endswith(k[1:]):
